@@ -1279,7 +1279,9 @@ class Interp:
                        '(checked per path: no heap write; no break/return/global; names bound in the body are unusable '
                        'afterwards) completes iff its body completes on every element and otherwise ends with the exception '
                        'of the first element on which the body raises (induction over the list, done by the rule, not by the '
-                       'solver)')
+                       'solver); facts of completed loops are re-established on a later witness by re-running the body under '
+                       'the local variables saved when the loop ran and the CURRENT heap (assumed: the body reads no heap '
+                       'location written in between -- in the verified code the bodies read class-level tables only)')
         # copy statements `<receiver>.append(<loop variable>)` directly in the body are taken out and accounted for by the rule:
         # the receiver (names / attributes not bound in the body, so the same object in every iteration) must be an empty
         # list at loop entry; after a loop that completes it holds exactly the elements of L in order; after a loop that
@@ -1309,8 +1311,9 @@ class Interp:
         if which == 0:
             return
         if which == 1:
+            saved_locals = dict(frame.locals)      # the names the body reads (field name, tables ...) as they are NOW
             self._gen_body_once(body, L.gen, frame, 'complete')
-            L.univ.append(('loop', body, frame))
+            L.univ.append(('loop', body, frame, saved_locals))
             for nm in bound:
                 frame.locals[nm] = POISON
             for T in targets:
@@ -1335,11 +1338,14 @@ class Interp:
             if u[0] == 'pred':
                 self.ctx.assume(as_z3_bool(u[1](w)))
                 continue
-            _, s0, f0 = u
-            saved = dict(f0.locals)
-            self._gen_body_once(s0, w, f0, 'complete')
-            for nm in list(f0.locals):
-                f0.locals[nm] = saved[nm] if nm in saved else POISON
+            _, s0, f0, then = u
+            # re-run under the local variables of the time the loop ran (an enclosing loop may have moved on since)
+            now = f0.locals
+            f0.locals = dict(then)
+            try:
+                self._gen_body_once(s0, w, f0, 'complete')
+            finally:
+                f0.locals = now
         L.wit.append(w)
         return w
 
